@@ -90,6 +90,12 @@ struct Arena {
         perm_seed = seed; chunk = chunk_size < 1 ? 1 : (chunk_size > 4096 ? 4096 : chunk_size);
         served = 0; exhausted = 0;
     }
+    // start a fresh chunk with another permutation; live and dead slots stay as they are
+    void rechunk(uint64_t seed, uint32_t chunk_size) {
+        IgnoreGuard ig;
+        perm_seed = seed; chunk = chunk_size < 1 ? 1 : (chunk_size > 4096 ? 4096 : chunk_size);
+        order.clear(); order_pos = 0;
+    }
     void next_chunk() {
         chunk_base = used_hi;
         order.resize(chunk);
